@@ -865,6 +865,58 @@ func (env *Env) call(x *ast.CallExpr) (Val, error) {
 			return Val{}, err
 		}
 		return boolVal(vc.equal(now, before)), nil
+	case "samefields":
+		// samefields(x, y, Excl1, Excl2...): all fields (recursively through struct-typed fields) are equal
+		a, err := arg(0)
+		if err != nil {
+			return Val{}, err
+		}
+		b, err := arg(1)
+		if err != nil {
+			return Val{}, err
+		}
+		excl := map[string]bool{}
+		for _, ex := range x.Args[2:] {
+			excl[exprStr(ex)] = true
+		}
+		var cs []string
+		var walk func(av, bv Val) error
+		walk = func(av, bv Val) error {
+			t := av.Typ
+			if pt, ok := t.Underlying().(*types.Pointer); ok {
+				t = pt.Elem()
+			}
+			st, ok := t.Underlying().(*types.Struct)
+			if !ok {
+				return fmt.Errorf("samefields: not a struct: %s", t)
+			}
+			for i := 0; i < st.NumFields(); i++ {
+				f := st.Field(i)
+				if excl[f.Name()] {
+					continue
+				}
+				fa, err := env.fieldOfIdx(av, t, i)
+				if err != nil {
+					return err
+				}
+				fb, err := env.fieldOfIdx(bv, t, i)
+				if err != nil {
+					return err
+				}
+				if _, isStruct := f.Type().Underlying().(*types.Struct); isStruct {
+					if err := walk(fa, fb); err != nil {
+						return err
+					}
+					continue
+				}
+				cs = append(cs, vc.equal(fa, fb))
+			}
+			return nil
+		}
+		if err := walk(a, b); err != nil {
+			return Val{}, err
+		}
+		return boolVal(sAnd(cs...)), nil
 	case "sameheap":
 		// sameheap(Type.field, ...): the named field maps are identical to the old state
 		var cs []string
@@ -932,4 +984,27 @@ func (env *Env) call(x *ast.CallExpr) (Val, error) {
 		return Val{}, fmt.Errorf("method/function calls are not allowed in specs: %s", exprStr(sel))
 	}
 	return Val{}, fmt.Errorf("unknown spec function %s", fname)
+}
+
+// field i of a struct (value or through pointer, possibly interior)
+func (env *Env) fieldOfIdx(base Val, t types.Type, i int) (Val, error) {
+	vc := env.vc
+	st := t.Underlying().(*types.Struct)
+	ft := st.Field(i).Type()
+	if _, isPtr := base.Typ.Underlying().(*types.Pointer); isPtr {
+		var loc *Loc
+		if base.Loc != nil && base.Loc.Kind != locCell {
+			loc = &Loc{Kind: locSub, Parent: base.Loc, Field: i, SI: vc.structInfoOf(t), Typ: ft}
+		} else {
+			loc = vc.fieldLoc(t, i, base.T)
+		}
+		if _, isStruct := ft.Underlying().(*types.Struct); isStruct {
+			return Val{Typ: types.NewPointer(ft), Loc: loc}, nil
+		}
+		r := Val{T: vc.loadLoc(env.heap, loc), Typ: ft}
+		vc.attachPtrLoc(&r)
+		return r, nil
+	}
+	si := vc.structInfoOf(t)
+	return Val{T: sApp(si.fields[i], base.T), Typ: ft}, nil
 }
